@@ -63,6 +63,10 @@ func (ex *Exec) callFunc(st *State, fr *Frame, ins ssa.Instruction, f *ssa.Funct
 		}
 	}
 	inl := len(f.Blocks) > 0 && (ex.isInRepo(f) || f.Synthetic != "" && !strings.HasPrefix(f.Synthetic, "package initializer"))
+	if inl && f.Pkg != nil && strings.HasSuffix(f.Pkg.Pkg.Path(), "/protobufcompiled") {
+		// generated protobuf / gRPC code is treated as external (A10): getters are pure, stubs perform network calls
+		inl = false
+	}
 	if inl && f.Synthetic != "" && !ex.isInRepo(f) {
 		// bound-method / thunk wrappers are inlined only if they wrap repository methods or closures
 		inl = strings.Contains(name, modulePrefix) || strings.Contains(f.Synthetic, "bound method") || strings.Contains(f.Synthetic, "thunk")
@@ -458,6 +462,7 @@ func (ex *Exec) builtin(st *State, fr *Frame, ins ssa.Instruction, b *ssa.Builti
 				k := ex.keyTerm(args[1])
 				if k.Sort == arrKeySort(ms.Has.Sort) {
 					had := Select(ms.Has, k)
+					st.Assume(Implies(had, Ge(ms.Len, IntC(1)))) // a map holding a key has at least one entry
 					st.Heap[m.Obj] = &MapState{Has: Store(ms.Has, k, TFalse), Vals: ms.Vals, Len: Ite(had, Sub(ms.Len, IntC(1)), ms.Len)}
 				}
 			}
